@@ -460,8 +460,9 @@ class OdeModel:
         `any([h, c])`, `int(..)` of these"""
         v = simp(v)
         hc = {self.HEAT, self.COOL}
-        if v[0] == "ifexp" and v[2] in (("const", True), ("const", 1)) and v[3] in (("const", False), ("const", 0)):
-            v = v[1]
+        # `True if c else False`, also written as the statement `if c: flag = True / else: flag = False` (a phi of the two constants)
+        if v[0] in ("ifexp", "phi") and v[2] in (("const", True), ("const", 1)) and v[3] in (("const", False), ("const", 0)):
+            v = simp(v[1])
         if v[0] == "call" and v[1] in (("global", "bool"), ("global", "int")) and len(v[2]) == 1 and not v[3]:
             return self.is_has_thermal(v[2][0])
         if v[0] == "call" and v[1] == ("global", "any") and len(v[2]) == 1 and v[2][0][0] in ("list", "tuple"):
